@@ -17,7 +17,7 @@ use std::time::{Duration, Instant};
 pub fn def() -> PropDef {
     PropDef {
         id: "C16",
-        rule: "generated thread programs, each executed in a FRESH child process (so that every program races the lazy initialisation of the global tables): 2..12 threads released by a common barrier with generated start skews; per thread a list of actions: construct an engine (Naive / NoSimd / Ssse3 / Avx2 / Default - each first-touches a different subset of the exp-log, skew, Mul16, Mul128 and LogWalsh tables) or run an encode or decode round (1..12 repetitions) on own objects, drawn from a per-program palette of 1..3 kinds of work so that threads do the same and different work side by side, optionally handing the object over a channel to another thread after j of its adds. oracle: every round's output digest equals the digest of the same round executed sequentially in the parent; the child must exit 0 (a panic anywhere, including lazy-initialisation poisoning, fails it). Two programs run 48 threads at once. Rounds may also be completed while their thread exits (object kept in a thread-local of the harness, encode()/decode() inside its destructor; holder registered before or after the thread's other codec calls): one action in ten of the generated programs and four hammer programs. Four programs make 4 threads call one-shot encode / decode with shard iterators that wait for each other inside the call. A child exceeding the watchdog (suspected deadlock) is reported as inconclusive (exit 2), never as a violation. non-trivial: >=2 threads whose first actions touch different tables, or a hand-over in the middle of a round; distinct by full program",
+        rule: "generated thread programs, each executed in a FRESH child process (so that every program races the lazy initialisation of the global tables): 2..12 threads released by a common barrier with generated start skews; per thread a list of actions: construct an engine (Naive / NoSimd / Ssse3 / Avx2 / Default - each first-touches a different subset of the exp-log, skew, Mul16, Mul128 and LogWalsh tables) or run an encode or decode round (1..12 repetitions) on own objects, drawn from a per-program palette of 1..3 kinds of work so that threads do the same and different work side by side, optionally handing the object over a channel to another thread after j of its adds. oracle: every round's output digest equals the digest of the same round executed sequentially in the parent; the child must exit 0 (a panic anywhere, including lazy-initialisation poisoning, fails it). Two programs run 48 threads at once, two more 160 and 300 threads. Rounds may also be completed while their thread exits (object kept in a thread-local of the harness, encode()/decode() inside its destructor; holder registered before or after the thread's other codec calls): one action in ten of the generated programs and four hammer programs. Four programs make 4 threads call one-shot encode / decode with shard iterators that wait for each other inside the call. A child exceeding the watchdog (suspected deadlock) is reported as inconclusive (exit 2), never as a violation. non-trivial: >=2 threads whose first actions touch different tables, or a hand-over in the middle of a round; distinct by full program",
         assumptions: &[
             "stress exploration: the OS scheduler picks the interleavings, the harness only provokes collisions (barrier, skews, fresh process per program); this cannot enumerate schedules",
         ],
@@ -367,6 +367,19 @@ impl PartDyn for Hammer {
                     .map(|t| {
                         let (cfg, seed) = specs[t as usize % 3];
                         ThreadProg { spin: 0, actions: vec![Action::Round { id: t, dec, kind, eng: Eng::Default, cfg, seed, repeat: run.tier.pick(60, 200), handover: None }] }
+                    })
+                    .collect();
+                jobs.push(Program { threads });
+            }
+            // hundreds of threads in one process (anything indexed by "thread number modulo a pool size"): 160 and 300
+            // threads, three kinds of decode work, a few repetitions each
+            for (kind, nthreads) in [(Kind::Rs, 160u32), (Kind::High, 300u32)] {
+                let mut rng = gen::Xs::new(run.seed ^ v ^ 0x160);
+                let specs: Vec<(Cfg, u64)> = (0..3).map(|_| (Cfg { k: 5 + rng.below(6), r: 2 + rng.below(4), b: 64 }, rng.next())).collect();
+                let threads = (0..nthreads)
+                    .map(|t| {
+                        let (cfg, seed) = specs[t as usize % 3];
+                        ThreadProg { spin: 0, actions: vec![Action::Round { id: t, dec: true, kind, eng: Eng::Default, cfg, seed, repeat: run.tier.pick(40, 120), handover: None }] }
                     })
                     .collect();
                 jobs.push(Program { threads });
